@@ -73,8 +73,14 @@ def run_process(folder, ids, env):
     return found, table
 
 
+def as_str(x):
+    """observed values are strings; anything else (a changed implementation) is made visible as a marked string"""
+    return x if isinstance(x, str) else "<" + repr(x) + ">"
+
+
 def canon_table(table, ids):
-    return [[k, v[ATTR_VERSION], [ids.get(s, -1) for s in v[ATTR_SOURCES]], v[ATTR_INSTALLED_VERSION]] for k, v in table.items()]
+    return [[as_str(k), as_str(v[ATTR_VERSION]), [ids.get(s, -1) for s in v[ATTR_SOURCES]],
+             None if v[ATTR_INSTALLED_VERSION] is None else as_str(v[ATTR_INSTALLED_VERSION])] for k, v in table.items()]
 
 
 def canon_order(found, ids):
@@ -218,7 +224,7 @@ async def do_install(hass, case):
                 shutil.rmtree(folder, ignore_errors=True)
             rows = canon_table(captured.get("table", {}), ids)
             rec_after = entry.data.get(CONF_INSTALLED_PACKAGES)
-            rec_after = [[k, v] for k, v in rec_after.items()] if rec_after is not None else []
+            rec_after = [[as_str(k), as_str(v)] for k, v in rec_after.items()] if rec_after is not None else []
             for r in rows:
                 cands.add(r[1])
             for _k, v in rec_after:
@@ -227,7 +233,8 @@ async def do_install(hass, case):
             cands |= set(env.values())
             steps.append({
                 "order": canon_order(found, ids), "table": rows, "env_before": [list(x) for x in env_before], "kind": kind, "error": err,
-                "args": calls[0] if len(calls) == 1 else (None if not calls else sum(calls, [])), "n_calls": len(calls),
+                "args": [as_str(x) for x in calls[0]] if len(calls) == 1 else (None if not calls else [as_str(x) for x in sum(calls, [])]),
+                "n_calls": len(calls),
                 "rec_after": rec_after, "updated": updates[0] > 0, "n_updates": updates[0],
                 "env_after": [list(x) for x in env.items()],
             })
